@@ -1912,7 +1912,32 @@ def _simple_namespace(**kw):
 
 
 def _signature(f):
-    raise Undecided("inspect.signature")
+    from .interp import FunctionValue, BoundMethod
+
+    skip = 0
+    if isinstance(f, BoundMethod):
+        f = f.fn
+        skip = 1
+    if isinstance(f, FunctionValue):
+        a = f.node.args
+        names = [p.arg for p in getattr(a, "posonlyargs", [])] + [p.arg for p in a.args] + [p.arg for p in a.kwonlyargs]
+        names = names[skip:]
+        if a.vararg is not None:
+            names.append(a.vararg.arg)
+        if a.kwarg is not None:
+            names.append(a.kwarg.arg)
+        ns = _Namespace()
+        ns.parameters = {n: n for n in names}
+        return ns
+    import inspect
+
+    try:
+        sig = inspect.signature(f)
+    except (TypeError, ValueError):
+        raise Undecided("inspect.signature of %r" % (f,))
+    ns = _Namespace()
+    ns.parameters = {n: n for n in sig.parameters}
+    return ns
 
 
 def _factorial(n, exact=False):
